@@ -189,6 +189,10 @@ func (rg *rootGeneratorPipeline) worker(ctx context.Context, wg *sync.WaitGroup,
 				errc <- err
 				return
 			}
+			if root == nil {
+				// rootの無いブロック(空の入力・空行のみのブロック)からは何も流さない
+				continue
+			}
 			select {
 			case <-ctx.Done():
 				return
